@@ -115,6 +115,11 @@ CHECKS = {
 }
 
 CHECKS.update({
+    "C08": (
+        "Hypothesis-generated match forms (pattern trees of depth <= 3, guards, statement-producing bodies, three uses, two scopes) with matching-biased subjects, rendered as Hy and as a Python match statement; differential against CPython (selected case, returned value, bound names, guard/effect log, exception, compile-time rejection)",
+        "Every pattern kind of Hy's match sublanguage incl. #* _ / #* rest, #** rest, class patterns with __match_args__, |, :as and keyword patterns; subjects instantiated from a case's pattern and mutated. Sampled.",
+        "CPython 3.12's match statement is the reference; only the selected case's captures are compared afterwards.",
+        "matchgen", "2/C08"),
     "C05": (
         "Hypothesis-generated lambda lists (legal shapes by construction + illegal mutations) and call shapes (fitting call + mutations) rendered as Hy and as Python; differential against CPython's def/call (bound values, TypeError, compile-time rejection); function bodies differential against the Python def for __doc__, implicit return, generator and coroutine results",
         "Signatures up to 6 parameters x up to 8 calls each through defn, fn->lambda, fn->def and :async; bodies of 1..4 forms incl. every string-literal flavour, yield, yield :from and nested generator lambdas, sync and async. Sampled.",
@@ -180,6 +185,8 @@ def main():
              "kind_free_text": "operator/arity/operand-vector enumeration and strategy with CPython as evaluator of the documented expansion"},
             {"name": "signatures", "path": "vf/props/c05.py", "serves_properties": ["C05"],
              "kind_free_text": "signature/call/body structures rendered both as Hy and as Python, CPython as reference"},
+            {"name": "matchgen", "path": "vf/props/c08.py", "serves_properties": ["C08"],
+             "kind_free_text": "pattern/subject generator with Hy and Python renderers, CPython's match as reference"},
             {"name": "literals", "path": "vf/props/c22.py", "serves_properties": ["C22", "C23", "C24"],
              "kind_free_text": "per-module structural generators of literal texts (vf/props/c22.py, c23.py, c24.py) with CPython as the reference evaluator"},
         ],
